@@ -59,18 +59,27 @@ def Cfg.env (cfg : Cfg) (rv : World → World → World) (origin : Addr) : Env :
   { origin := origin, rv := rv, createBumpsNonce := cfg.createBumpsNonce,
     isPrecompile := cfg.isPrecompile, isMiner := cfg.isMiner }
 
+/-- `contractExecutor.Execute`: the outermost frame of the transaction, from the world `w0`
+    the block loop snapshots -/
+def txFrame (cfg : Cfg) (rv : World → World → World) (tx : Tx) (w0 : World) : Result :=
+  let env := cfg.env rv tx.origin
+  match tx.kind with
+  | .create => createFrame env 0 false tx.origin false 0 tx.value tx.body w0
+  | .call target =>
+    let w1 := if cfg.p007 then w0.setNonce tx.origin (w0.getNonce tx.origin + 1) else w0
+    callFrame env 0 false tx.origin .call target tx.value tx.body w1
+
+/-- the block loop after `Execute`: `RevertToSnapshot(snapshot)` on failure, then (Proposal007,
+    failed transaction) the source nonce bump -/
+def txFinish (cfg : Cfg) (rv : World → World → World) (tx : Tx) (w0 : World) (r : Result) : World :=
+  let w2 := if r.err.isSome then rv w0 r.world else r.world
+  if cfg.p007 && r.err.isSome then w2.setNonce tx.origin (w2.getNonce tx.origin + 1) else w2
+
 /-- one transaction of the block loop; `i` is its index among executed transactions -/
 def execTx (cfg : Cfg) (rv : World → World → World) (i : Nat) (w : World) (tx : Tx) : World × Receipt :=
   let w0 := if cfg.p013 then prepare w tx.hash i else w
-  let env := cfg.env rv tx.origin
-  let r : Result :=
-    match tx.kind with
-    | .create => createFrame env 0 false tx.origin false 0 tx.value tx.body w0
-    | .call target =>
-      let w1 := if cfg.p007 then w0.setNonce tx.origin (w0.getNonce tx.origin + 1) else w0
-      callFrame env 0 false tx.origin .call target tx.value tx.body w1
-  let w2 := if r.err.isSome then rv w0 r.world else r.world
-  let w3 := if cfg.p007 && r.err.isSome then w2.setNonce tx.origin (w2.getNonce tx.origin + 1) else w2
+  let r := txFrame cfg rv tx w0
+  let w3 := txFinish cfg rv tx w0 r
   (w3, { failed := r.err.isSome,
          logs := if cfg.p013 then w3.getLogs tx.hash else r.logs,
          returned := r.logs, err := r.err, trace := r.trace })
